@@ -9,6 +9,7 @@ import itertools
 import traceback
 import zlib
 
+import copy
 import numpy as np
 
 import virocon
@@ -673,6 +674,12 @@ def hdc_gen_scenarios(tier, seed, purpose):
     # two regions that are parallel diagonal bands: the bounding box of each contains cells of the other
     scen.append({"label": "core/bimodal-diagonal-bands", "recipe": BIMODAL_DIAGONAL_2D, "alpha": 0.2, "global_seed": 0, "call": "keywords",
                  "limits": [[0.0, 10.0], [-2.0, 15.0]], "limits_form": "lists", "deltas": [0.1, 0.1], "deltas_form": "list"})
+    # a secondary region that has only just emerged: one cell (mu = 6.5, alpha = 0.2) / two cells (mu = 6.1, alpha = 0.3)
+    for mu_, alpha_ in ((6.5, 0.2), (6.1, 0.3)):
+        rec_ = copy.deepcopy(BIMODAL_2D)
+        rec_["dims"][0]["params"]["mu"] = mu_
+        scen.append({"label": f"core/bimodal-tiny-second-region-{alpha_}", "recipe": rec_, "alpha": alpha_, "global_seed": 0, "call": "keywords",
+                     "limits": [[0.0, 12.0], [-6.0, 12.0]], "limits_form": "lists", "deltas": [0.25, 0.25], "deltas_form": "list"})
     add("core/too-small-grid", DNVGL_HS_TZ, 1e-4, [60, 60], shrink=0.35)
     # isotropic grid, region touching the lower grid edge (boundary two cells thick there)
     scen.append({"label": "core/iso-region-at-grid-edge", "recipe": EDGE_2D, "alpha": 4.357466301854152e-06, "global_seed": 0, "call": "keywords",
